@@ -342,3 +342,78 @@ func vC13Preempt() {
 		setPreempt(0)
 	}
 }
+
+// ---- rollback mitigation enabled: scripted KV agent for the poller ----
+
+var vObserveCalls int
+var vObserveAfterClose int
+var vShutdown bool
+
+type vNoOp struct{}
+
+func (vNoOp) Cancel() {}
+
+func stub__gocbcore_Agent_WaitForConfigSnapshot(agent *gocbcore.Agent, deadline time.Time, opts gocbcore.WaitForConfigSnapshotOptions, cb gocbcore.WaitForConfigSnapshotCallback) (gocbcore.PendingOp, error) {
+	cb(&gocbcore.WaitForConfigSnapshotResult{Snapshot: new(gocbcore.ConfigSnapshot)}, nil)
+	return vNoOp{}, nil
+}
+
+func stub__gocbcore_Agent_ObserveVb(agent *gocbcore.Agent, opts gocbcore.ObserveVbOptions, cb gocbcore.ObserveVbCallback) (gocbcore.PendingOp, error) {
+	vObserveCalls++
+	if vShutdown {
+		vObserveAfterClose++
+	}
+	// the reply arrives inline: what is explored here is Stop against the poller, not reply timing (that is C07/C20)
+	cb(&gocbcore.ObserveVbResult{VbID: opts.VbID, VbUUID: 1, PersistSeqNo: ^gocbcore.SeqNo(0) >> 1}, nil)
+	return vNoOp{}, nil
+}
+
+func stub__gocbcore_NewBestEffortRetryStrategy(calc gocbcore.BackoffCalculator) *gocbcore.BestEffortRetryStrategy {
+	return nil
+}
+func stub__gocbcore_ConfigSnapshot_NumReplicas(pi gocbcore.ConfigSnapshot) (int, error) { return 1, nil }
+func stub__gocbcore_ConfigSnapshot_VbucketToServer(pi gocbcore.ConfigSnapshot, vbID uint16, replicaIdx uint32) (int, error) {
+	return int(replicaIdx), nil
+}
+
+func (c *vClient) GetAgent() *gocbcore.Agent { return nil }
+
+// H_C13_mitigation: Close() with rollback mitigation enabled: at once after
+// start-up (the poller goroutine may not have started yet), between polls,
+// and while observe replies are outstanding.
+func H_C13_mitigation() {
+	setMerge(true)
+	vC13Preempt()
+	vObserveCalls, vObserveAfterClose, vShutdown = 0, 0, false
+	w := &vWorld{cl: &vClient{observers: map[uint16]couchbase.Observer{}}, st: &vStore{docs: map[uint16]*models.CheckpointDocument{}},
+		co: &vConsumer{}, disc: &vDiscovery{member: 1}, cfg: &config.Dcp{}}
+	cfg := w.cfg
+	cfg.RollbackMitigation.Interval = 2 * time.Second
+	cfg.RollbackMitigation.ConfigWatchInterval = 24 * time.Hour // the cluster-map watcher (private-field reflection) stays out of the horizon
+	cfg.ConnectionTimeout = time.Second
+	cfg.API.Disabled = true
+	cfg.HealthCheck.Disabled = true
+	cfg.Checkpoint.Type = "manual"
+	cfg.Dcp.Group.Membership.Type = "couchbase"
+	stopCh := make(chan struct{}, 1)
+	st := stream.NewStream(w.cl, w.st, cfg, &couchbase.Version{Major: 7}, &couchbase.BucketInfo{}, w.disc, w.co,
+		map[uint32]string{}, stopCh, models.DefaultEventHandler, tracing.NewTracerComponent())
+	w.d = &dcp{
+		client: w.cl, consumer: w.co, config: cfg, version: &couchbase.Version{Major: 7}, bucketInfo: &couchbase.BucketInfo{},
+		apiShutdown: make(chan struct{}, 1), cancelCh: make(chan os.Signal, 1), stopCh: stopCh, readyCh: make(chan struct{}, 1),
+		metricCollectors: []prometheus.Collector{}, eventHandler: models.DefaultEventHandler, bus: &vBus{},
+		stream: st, vBucketDiscovery: w.disc, metadata: w.st,
+	}
+	freezeSchedule()
+	st.Open()
+	thawSchedule()
+	time.Sleep([]time.Duration{0, 3 * time.Second, 4 * time.Second}[choose("when", 3)])
+	w.d.close()
+	cover("closed-with-mitigation")
+	vShutdown = true
+	w.cl.shutdown, w.st.shutdown, w.co.shutdown = true, true, true
+	setHorizon(nowNs() + int64(time.Minute))
+	quiesce()
+	assert(vObserveAfterClose == 0, "rollback-mitigation polling has stopped when Close() returns")
+	assert(len(w.cl.closes) == 2 && w.cl.dcpClosed == 1, "streams and connections closed")
+}
